@@ -79,6 +79,172 @@ class RenamableMSV(WriteableObjectNameMixIn, MultiStateValueObject):
     pass
 
 
+from bacpypes.local.object import WriteableObjectIdentifierMixIn
+from bacpypes.object import Property as _Property
+from ..stacks import PlainServiceApp
+
+
+@register_object_type(vendor_id=997)
+class RenumberableAV(WriteableObjectIdentifierMixIn, AnalogValueObject):
+    pass
+
+
+@register_object_type(vendor_id=997)
+class RenumberableBV(WriteableObjectIdentifierMixIn, BinaryValueObject):
+    pass
+
+
+def side_doors(run, rng):
+    """what an application does to one object must not show on another: a property added to one object of a class, the extra
+    property a service gives its own device object, an object whose identifier may be written.  Two devices in one process,
+    objects of one class side by side; everything is judged by what ReadProperty / ReadPropertyMultiple answer"""
+    CLOCK.reset()
+    lan = FaultNet("lan", Plan())
+    lan.frame_cap = 10 ** 9
+    first_plain = rng.random() < 0.5
+    if first_plain:
+        plain = ServiceDevice(lan, 6, app_class=PlainServiceApp)
+    dev = ServiceDevice(lan, 5)             # reports changes of value: its device object gets 'activeCovSubscriptions' at start-up
+    if not first_plain:
+        plain = ServiceDevice(lan, 6, app_class=PlainServiceApp)
+    client = SyncClient(lan, 1)
+    hist = []
+
+    def fail(key, **kw):
+        run.violation(key, dict(kw, history=hist[-8:]))
+        return False
+
+    def rp(target, oid, pid):
+        req = ReadPropertyRequest(objectIdentifier=oid, propertyIdentifier=pid, destination=target.address)
+        ans = client.call(req)
+        run.count("reads")
+        if isinstance(ans, ReadPropertyACK):
+            return ("value", ans)
+        if isinstance(ans, ErrorPDU):
+            return ("error", str(ans.errorClass), str(ans.errorCode))
+        return ("other", type(ans).__name__)
+
+    def rpm_all(target, oid):
+        req = ReadPropertyMultipleRequest(destination=target.address, listOfReadAccessSpecs=[
+            ReadAccessSpecification(objectIdentifier=oid, listOfPropertyReferences=[PropertyReference(propertyIdentifier="all")])])
+        ans = client.call(req)
+        run.count("reads")
+        if not isinstance(ans, ReadPropertyMultipleACK):
+            return None, ((str(ans.errorClass), str(ans.errorCode)) if isinstance(ans, ErrorPDU) else type(ans).__name__)
+        out = {}
+        for res in ans.listOfReadAccessResults:
+            for el in res.listOfResults:
+                out[el.propertyIdentifier] = "error" if el.readResult.propertyAccessError is not None else "value"
+        return out, None
+
+    # 1. a property added to one object only
+    objs = [AnalogValueObject(objectIdentifier=("analogValue", k), objectName="a%d" % k, presentValue=float(k), statusFlags=[0, 0, 0, 0]) for k in (1, 2)]
+    late = AnalogValueObject(objectIdentifier=("analogValue", 3), objectName="a3", presentValue=3.0, statusFlags=[0, 0, 0, 0]) if rng.random() < 0.5 else None
+    pid = rng.choice(["apduTimeout", "numberOfStates", "vendorIdentifier"])
+    objs[0].add_property(_Property(pid, Unsigned, default=77, optional=True, mutable=False))
+    if late is None:
+        late = AnalogValueObject(objectIdentifier=("analogValue", 3), objectName="a3", presentValue=3.0, statusFlags=[0, 0, 0, 0])
+    for o in objs + [late]:
+        dev.app.add_object(o)
+    CLOCK.settle()
+    hist.append(("property %s added to analogValue:1 only" % pid,))
+    got = rp(dev, ("analogValue", 1), pid)
+    if got[0] != "value":
+        return fail("added-property-not-readable", answer=got[1:])
+    for k in (2, 3):
+        got = rp(dev, ("analogValue", k), pid)
+        if got != ("error", "property", "unknownProperty"):
+            return fail("property-added-to-one-object-shows-on-another", object=("analogValue", k), property=pid, answer=repr(got[1:]) if got[0] != "value" else "a value")
+        props, err = rpm_all(dev, ("analogValue", k))
+        if props is None:
+            return fail("read-all-refused-although-every-property-can-be-read", object=("analogValue", k), answer=err)
+        if pid in props:
+            return fail("property-added-to-one-object-shows-on-another", object=("analogValue", k), property=pid, through="ReadPropertyMultiple all")
+    # 2. the extra property of the reporting device's own device object
+    got = rp(dev, ("device", 5), "activeCovSubscriptions")
+    if got[0] != "value":
+        return fail("reporting-device-cannot-list-its-subscriptions", answer=got[1:])
+    got = rp(plain, ("device", 6), "activeCovSubscriptions")
+    if got != ("error", "property", "unknownProperty"):
+        return fail("property-added-to-one-object-shows-on-another", object=("device", 6), property="activeCovSubscriptions",
+                    answer=repr(got[1:]) if got[0] != "value" else "a value")
+    props, err = rpm_all(plain, ("device", 6))
+    if props is None:
+        return fail("read-all-refused-although-every-property-can-be-read", object=("device", 6), answer=err)
+    if "activeCovSubscriptions" in props:
+        return fail("property-added-to-one-object-shows-on-another", object=("device", 6), property="activeCovSubscriptions", through="ReadPropertyMultiple all")
+    run.count("added_property_sessions")
+
+    # 3. objects whose identifier may be written: a number of its own type that nobody has - anything else is refused and
+    #    leaves the device as it was
+    model = {}
+    for cls, inst in ((RenumberableAV, 10), (RenumberableAV, 11), (RenumberableBV, 10)):
+        o = cls(objectIdentifier=(cls.objectType, inst), objectName="r-%s-%d" % (cls.objectType, inst))
+        dev.app.add_object(o)
+        model[(cls.objectType, inst)] = o
+    CLOCK.settle()
+
+    def view():
+        """identifier each object reports under the identifier the model says it answers to, and the device's object list"""
+        v = {}
+        for oid in sorted(model):
+            got = rp(dev, oid, "objectIdentifier")
+            v[oid] = tuple(got[1].propertyValue.cast_out(ObjectIdentifier)) if got[0] == "value" else got
+        got = rp(dev, ("device", 5), "objectList")
+        v["list"] = sorted(tuple(x) for x in got[1].propertyValue.cast_out(ArrayOf(ObjectIdentifier))[1:]) if got[0] == "value" else got
+        return v
+
+    for step in range(rng.choice([4, 8, 12])):
+        oid = rng.choice(sorted(model))
+        r = rng.random()
+        others = [k for k in model if k != oid]
+        if r < 0.35:
+            new = (oid[0], rng.choice([n for n in range(10, 16) if (oid[0], n) not in model]))
+            expect = "ack"
+        elif r < 0.55:
+            same = [k for k in others if k[0] == oid[0]]
+            new = rng.choice(same) if same else ("analogValue", 1)
+            expect = ("property", "duplicateObjectId")
+        elif r < 0.9:
+            other_type = rng.choice([t for t in ("analogValue", "binaryValue", "multiStateValue", "device") if t != oid[0]])
+            new = (other_type, rng.choice([n for n in range(20, 30)]))
+            expect = ("property", "valueOutOfRange")
+        else:
+            new = oid
+            expect = "ack"
+        hist.append(("write objectIdentifier", oid, new))
+        before = view()
+        req = WritePropertyRequest(objectIdentifier=oid, propertyIdentifier="objectIdentifier", destination=dev.address)
+        req.propertyValue = Any()
+        req.propertyValue.cast_in(ObjectIdentifier(new))
+        ans = client.call(req)
+        run.count("writes")
+        run.count("renumberings")
+        if expect == "ack":
+            if not isinstance(ans, SimpleAckPDU):
+                return fail("renumbering-to-a-free-number-refused", answer=(str(ans.errorClass), str(ans.errorCode)) if isinstance(ans, ErrorPDU) else type(ans).__name__)
+            run.count("writes_acknowledged")
+            model[new] = model.pop(oid)
+            after = view()
+            if after.get(new) != new:
+                return fail("read-back-differs-from-written-value", object=new, read=repr(after.get(new)))
+            if new != oid and rp(dev, oid, "objectIdentifier") != ("error", "object", "unknownObject"):
+                return fail("object-still-answers-to-the-identifier-it-gave-up", old=oid)
+            want = sorted([x for x in before["list"] if x != oid] + [new])
+            if after["list"] != want:
+                return fail("object-list-does-not-follow-the-renumbering", listed=repr(after["list"]), expected=repr(want))
+        else:
+            run.count("writes_refused")
+            if not (isinstance(ans, ErrorPDU) and (str(ans.errorClass), str(ans.errorCode)) == expect):
+                return fail("renumbering-not-refused-as-specified", expected=expect,
+                            answer=(str(ans.errorClass), str(ans.errorCode)) if isinstance(ans, ErrorPDU) else type(ans).__name__)
+            after = view()
+            if after != before:
+                return fail("refused-write-changed-the-device", changed=[repr((k, before[k], after[k])) for k in before if before[k] != after.get(k)][:3])
+    run.count("renumbering_sessions")
+    return True
+
+
 class World:
     def __init__(self, run, rng, full=False):
         """full: every optional property present and arrays not empty where the generator can help it (the systematic pass)"""
@@ -814,12 +980,15 @@ def main():
     thorough = run.tier == "thorough"
     if thorough and run.args.shard is None:
         run.run_shards("rv.props.c15", timeout=3400)
-        return run.finish(require=("sessions", "reads", "writes_acknowledged", "writes_refused", "read_backs", "rpm_elements_compared", "commands_checked", "null_valued_writes", "renames"))
+        return run.finish(require=("sessions", "reads", "writes_acknowledged", "writes_refused", "read_backs", "rpm_elements_compared", "commands_checked", "null_valued_writes", "renames", "renumberings", "added_property_sessions"))
     rng = run.rng("c15")
     for i in range((640 if thorough else 12) // (run.shard[1] if thorough else 1) + 1):
         run.sample({"session": i, "requests": 300 if thorough else 150})
         session(run, rng, 300 if thorough else 150, systematic=(i == 0 or (thorough and i % 4 == 0)))
-    run.finish(require=("sessions", "reads", "writes_acknowledged", "writes_refused", "read_backs", "rpm_elements_compared", "commands_checked", "null_valued_writes", "renames"))
+        for j in range(4):
+            run.case(("side-doors", run.shard[0], i, j), sample={"kind": "side-doors"}, sample_key=("side",))
+            side_doors(run, rng)
+    run.finish(require=("sessions", "reads", "writes_acknowledged", "writes_refused", "read_backs", "rpm_elements_compared", "commands_checked", "null_valued_writes", "renames", "renumberings", "added_property_sessions"))
 
 
 if __name__ == "__main__":
